@@ -125,7 +125,7 @@ def _kinds():
     return K
 
 
-PLAINTEXTS = ["dfltpw", "envpw", "asgpw"] + ["docpw%d" % i for i in range(12)]
+PLAINTEXTS = ["dfltpw", "envpw", "asgpw", "digestpw", "decoypw"] + ["docpw%d" % i for i in range(12)]
 
 
 def observe(value):
@@ -459,7 +459,9 @@ def rac(tier: str, seed: int) -> dict:
               "Schema objects, item paths with implicit creation, item read + attribute, mixed, stand-alone sub-"
               "schema attached later, bottom-up, make_type): names compared with the attribute-chain route and the "
               "documented rule, then build/load/assign with the variable set; stand-alone/make_type routes are "
-              "asserted only where nothing is inherited across the attachment (else counted as trivial)" %
+              "asserted only where nothing is inherited across the attachment (else counted as trivial); "
+              "ChallengeField defaults plaintext / DigestValue instance / none x binding named / automatic (schema, "
+              "field) / prefix x variable unset / empty / set x depth 1-2 x sha256/md5 with all loads and assignment" %
               (len(K), len(REP_COMBOS), len(ROUTES)),
         tier=tier, seed=seed)
     with sandbox():
@@ -493,6 +495,15 @@ def rac(tier: str, seed: int) -> dict:
                     for ops in orders:
                         _emit(rec, {"levels": levels, "fenv": fenv, "kind": kind, "state": state, "ops": ops}, n)
                         n += 1
+        # E: challenge / digest defaults with an environment binding
+        for case in challenge_cases():
+            findings, info = challenge_case(case)
+            rec.case(key=("challenge",) + tuple(sorted(case.items())), nontrivial=True,
+                     sample=dict(case, expected_variable=info["name"]) if n % 97 == 0 else None)
+            n += 1
+            for fd in findings:
+                rec.violation(obligation=fd["ob"], what=fd["what"], witness_key=fd["wkey"],
+                              replay=dict(case, obligation=fd["ob"], witness_key=fd["wkey"]))
         # D: the same logical schema along every construction route
         for case in route_cases():
             if not quick and rec.out_of_time():
@@ -750,6 +761,120 @@ def route_survey():
     return out
 
 
+# --------------------------------------------------------- E: challenge / digest defaults with an environment binding
+
+CH_DEFAULTS = ["plaintext", "digest", "none"]
+CH_BINDINGS = ["named", "auto-schema", "auto-field", "prefix"]
+CH_STATES = ["unset", "empty", "set"]
+
+
+def challenge_case(case):
+    """ChallengeField(default = plaintext str | DigestValue instance | nothing) bound to a variable by name or
+    automatically.  Variable set (non-empty) at build time: the value is the hash of the VARIABLE (challenge with
+    it succeeds, with the default's secret fails), later loads are skipped, assignment still wins.  Unset / empty:
+    the default (the very DigestValue instance, a hash of the plaintext, or None); loads and assignment work."""
+    import hashlib
+    import cincoconfig as cc
+    from cincoconfig.core import ValidationError
+    dkind, binding, state, depth, algo = case["default"], case["binding"], case["state"], case["depth"], case["algo"]
+    wkey = "challenge-default+env:%s/%s" % (dkind, binding)
+    secret = {"plaintext": "dfltpw", "digest": "digestpw", "none": None}[dkind]
+    digest_default = cc.DigestValue.create("digestpw", getattr(hashlib, algo)) if dkind == "digest" else None
+    kw = {}
+    if dkind == "plaintext":
+        kw["default"] = "dfltpw"
+    elif dkind == "digest":
+        kw["default"] = digest_default
+    levels = [{"named": None, "auto-schema": True, "auto-field": None, "prefix": "APP"}[binding]] + [None] * (depth - 1)
+    fenv = {"named": "MYVAR", "auto-schema": None, "auto-field": True, "prefix": None}[binding]
+    name = ref_name(levels, fenv)
+    K = {"Ch": {"make": lambda e: cc.ChallengeField(algo, env=e, **kw)}}
+    spec = {"doc": lambda i: ("docpw%d" % i, "digest-of:docpw%d" % i), "assign": ("asgpw", "digest-of:asgpw")}
+    env = {c: "decoypw" for c in candidates(depth)}
+    env[name] = {"unset": None, "empty": "", "set": "envpw"}[state]
+    findings = []
+
+    def add(ob, what):
+        findings.append({"ob": ob, "wkey": wkey,
+                         "what": "ChallengeField(%s, default=%s) bound to %s (%s), variable %s: %s"
+                                 % (algo, {"plaintext": "'dfltpw'", "digest": "DigestValue of 'digestpw'",
+                                           "none": "None"}[dkind], name, binding,
+                                    {"unset": "unset", "empty": "''", "set": "'envpw'"}[state], what)})
+
+    with environ(**env):
+        schema, field = build_schema(levels, fenv, "Ch", K)
+        fn = type(field).__setdefault__
+        ob_default = "%s:%s/post:C14.%s" % (fn.__module__.replace("cincoconfig.", "", 1), fn.__qualname__,
+                                            "value-is-validated-variable" if state == "set" else "as-if-no-binding")
+        try:
+            cfg = schema()
+        except ValidationError as exc:
+            add(ob_default, "construction raised %s" % exc)
+            return findings, {"name": name}
+        value = get_value(cfg, depth)
+
+        def accepts(v, plain):
+            try:
+                v.challenge(plain)
+                return True
+            except ValueError:
+                return False
+
+        if state == "set":
+            if value is None or not hasattr(value, "challenge"):
+                add(ob_default, "the value is %r, not a digest" % (value,))
+                return findings, {"name": name}
+            if not accepts(value, "envpw"):
+                add(ob_default, "challenge with the variable's value fails (the value is %s)" % observe(value))
+                return findings, {"name": name}
+            if secret is not None and accepts(value, secret):
+                add(ob_default, "challenge with the default's secret %r succeeds" % secret)
+                return findings, {"name": name}
+            for i, op in enumerate(["load_tree"] + ["loads:" + f for f in FORMATS]):
+                exc = apply_op(cfg, depth, op, i, spec)
+                now = get_value(cfg, depth)
+                if exc is not None or not accepts(now, "envpw"):
+                    add(OB_DOC, "%s of a document must leave the hash of the variable: now %s%s"
+                        % (op, observe(now), " (raised %s)" % exc if exc else ""))
+                    return findings, {"name": name}
+            exc = apply_op(cfg, depth, "assign", 0, spec)
+            now = get_value(cfg, depth)
+            if exc is not None or not accepts(now, "asgpw") or accepts(now, "envpw"):
+                add(OB_ASSIGN, "assigning 'asgpw' must win: now %s%s" % (observe(now), " (raised %s)" % exc if exc else ""))
+        else:
+            if dkind == "none":
+                ok = value is None
+            elif dkind == "digest":
+                ok = hasattr(value, "challenge") and value == digest_default and accepts(value, "digestpw")
+            else:
+                ok = hasattr(value, "challenge") and accepts(value, "dfltpw")
+            if not ok:
+                add(ob_default, "the value must be the default, observed %r" % (observe(value),))
+                return findings, {"name": name}
+            for i, op in enumerate(["load_tree"] + ["loads:" + f for f in FORMATS]):
+                exc = apply_op(cfg, depth, op, i, spec)
+                now = get_value(cfg, depth)
+                if exc is not None or not hasattr(now, "challenge") or not accepts(now, "docpw%d" % i):
+                    add(OB_NOBIND_LOAD, "%s must load the document's value: now %s%s"
+                        % (op, observe(now), " (raised %s)" % exc if exc else ""))
+                    return findings, {"name": name}
+            exc = apply_op(cfg, depth, "assign", 0, spec)
+            now = get_value(cfg, depth)
+            if exc is not None or not accepts(now, "asgpw"):
+                add(OB_ASSIGN, "assigning 'asgpw' must win: now %s" % observe(now))
+    return findings, {"name": name}
+
+
+def challenge_cases():
+    for dkind in CH_DEFAULTS:
+        for binding in CH_BINDINGS:
+            for state in CH_STATES:
+                for depth in (1, 2):
+                    for algo in ("sha256", "md5"):
+                        yield {"challenge": True, "default": dkind, "binding": binding, "state": state,
+                               "depth": depth, "algo": algo}
+
+
 def _emit_route(rec, case, n):
     findings, info = route_case(case)
     rec.case(key=("route", case["route"], tuple(case["levels"]), case["fenv"]), nontrivial=info["in_scope"],
@@ -760,6 +885,13 @@ def _emit_route(rec, case, n):
 
 
 def replay(case: dict) -> dict:
+    if case.get("challenge"):
+        with sandbox():
+            findings, info = challenge_case(case)
+        mine = [f for f in findings if case.get("obligation") in (None, f["ob"])
+                and case.get("witness_key") in (None, f["wkey"])]
+        return {"fails": bool(mine), "expected": "the clauses of a ChallengeField bound to %r hold" % info["name"],
+                "observed": [f["what"] for f in mine][:3] or "clause holds"}
     if "route" in case:
         with sandbox():
             findings, info = route_case(case)
